@@ -22,6 +22,9 @@ func (p *Prog) resolveType(pkgPath, expr string) (types.Type, error) {
 	if expr == "string" {
 		return types.Typ[types.String], nil
 	}
+	if expr == "ref" { // any pointer-like value, by identity
+		return types.Typ[types.UnsafePointer], nil
+	}
 	for _, pk := range p.ssa.AllPackages() {
 		if pk.Pkg.Path() != pkgPath {
 			continue
